@@ -26,6 +26,14 @@ func checkC10(c *Ctx) {
 	r103(c)
 	r104(c, "R10.4 split-needs-rollout-targets")
 	persistedFields(c, "R10.5 split-survives-restart", "RolloutController", nil)
+	// "after rollout stop all requests go to the active targets": also when the stop was acknowledged while a redeploy of
+	// the same service was waiting for its targets (known finding K8)
+	rStaleInstall(c, "R10.6 split-in-force-is-the-last-acknowledged", "DeployService", "copy-made-before-the-health-wait-installed-after")
+	// the split consulted is the one in force when the request is actually routed: the balancer is chosen after the pause
+	// gate (shared with C03/C07) ...
+	r073(c, "R10.7 balancer-chosen-after-the-gate")
+	// ... and an acknowledged `rollout set` / `rollout stop` reaches the state file (no snapshot is skipped; shared with C12)
+	r122(c, "R10.8 snapshots-serialised-and-unconditional")
 }
 
 // reachableStatic: module functions reachable from fn through static calls (and closures).
@@ -777,4 +785,59 @@ func usedOnlyByContains(v ssa.Value) (ssa.Instruction, bool) {
 		site = call
 	}
 	return site, site != nil
+}
+
+// rStaleInstall: a deploy command takes the service object it will install (the live one, or a copy carrying the live
+// rollout slot and split) BEFORE the health wait and installs it AFTER it, without checking that the routing table still
+// holds what it started from. A command acknowledged in between is undone by the install: `rollout stop` / `rollout set`
+// during a redeploy (K8, the copy carries the old split), a redeploy during a rollout deploy (K9, the replaced - drained
+// and disposed - service object is put back). Decided structurally: in deployTargetsIntoService a may-block wait lies
+// between the function's entry (the object was obtained by the caller) and installService, and installService's locked
+// section never compares the table's current entry with anything.
+func rStaleInstall(c *Ctx, rule string, entry string, what string) {
+	c.floor(rule, 1)
+	dt := c.method("Router", "deployTargetsIntoService")
+	inst := c.method("Router", "installService")
+	wait := c.method("LoadBalancer", "WaitUntilHealthy")
+	get := c.method("ServiceMap", "Get")
+	ef := c.method("Router", entry)
+	// the entry command obtains the object and hands it to the deploy routine
+	hands := false
+	for _, cs := range callsTo(ef, dt) {
+		v := resolve(cs.common().Args[1])
+		if call, ok := v.(*ssa.Call); ok && call.Parent() == ef {
+			hands = true // a service looked up / copied in the entry function itself
+		}
+		if _, ok := v.(*ssa.Phi); ok {
+			hands = true
+		}
+	}
+	if !hands {
+		c.undecided(rule, entry+"/hands-its-service-to-the-deploy-routine", ef.Pos(), "the service passed to deployTargetsIntoService is not obtained in "+entry+" (unrecognised form)")
+		return
+	}
+	blocksBefore := false
+	for _, ic := range callsTo(dt, inst) {
+		for _, wc := range callsTo(dt, wait) {
+			if dominates(wc.instr, ic.instr) {
+				blocksBefore = true
+			}
+		}
+	}
+	revalidates := false
+	for _, fn := range withAnon(inst) {
+		for _, gc := range callsTo(fn, get) {
+			gv, _ := gc.instr.(ssa.Value)
+			if gv == nil || gv.Referrers() == nil {
+				continue
+			}
+			for _, r := range *gv.Referrers() {
+				if bo, ok := r.(*ssa.BinOp); ok && (bo.Op == token.EQL || bo.Op == token.NEQ) && !isNilConst(bo.X) && !isNilConst(bo.Y) {
+					revalidates = true
+				}
+			}
+		}
+	}
+	c.ob(rule, entry+"/"+what, ef.Pos(), !blocksBefore || revalidates, true,
+		"the object installed was obtained before the health wait; a command acknowledged during the wait is undone when it is installed (installService does not check that the table still holds the object the deploy started from)")
 }
